@@ -1,4 +1,4 @@
-import Tahoe.Mutable.Authentic
+import Tahoe.Mutable.AuthenticLemmas
 /-! C10 — mutable reads return only published versions (property theorems).
 Cryptographic assumptions are explicit hypotheses; `Tahoe.C10.Inst` shows they are jointly
 satisfiable by a concrete (toy, symbolic) instance, so no theorem below is vacuous. -/
@@ -86,6 +86,57 @@ theorem fieldDecision_table :
   refine ⟨rfl, rfl, fun _ => rfl, fun _ => rfl, ?_⟩
   intro w f h1 h2 h3
   cases f <;> simp_all [fieldDecision]
+
+/-! ### the signed root stays in force for the whole Retrieve -/
+
+/-- **the signed root is never reset**: whatever shares are offered and whichever of them are rejected
+(for any reason, in any order), the share hash tree of a Retrieve still holds the root hash that
+`_setup_download` took from the signed prefix. -/
+theorem signed_root_never_reset [DecidableEq H] (T : TreeOps H Chain) (bhtRoot : Blocks → H) (root : H)
+    (evs : List (REv Chain Blocks)) :
+    (rrun T bhtRoot (Retr.setup root) evs).tree = some root :=
+  (rinv_run T bhtRoot root evs _ (rinv_setup T bhtRoot root)).1
+
+/-- **every accepted block set hashes to the signed root**, whatever the sequence of rejected shares
+before or after it: a share is only ever validated against the root seeded from the signed prefix,
+never against a root computed from other (unsigned) shares. -/
+theorem accepted_blocks_hash_to_signed_root [DecidableEq H] (T : TreeOps H Chain) (bhtRoot : Blocks → H)
+    (root : H) (evs : List (REv Chain Blocks)) (i : Nat) (b : Blocks)
+    (h : (i, b) ∈ (rrun T bhtRoot (Retr.setup root) evs).shares) :
+    ∃ c, T.chainRoot c i (bhtRoot b) = root :=
+  (rinv_run T bhtRoot root evs _ (rinv_setup T bhtRoot root)).2 i b h
+
+omit [DecidableEq FP] in
+/-- **a Retrieve only validates blocks of the published version it was started for**: if the prefix
+carrying `v.pre.root` was accepted by the servermap update (so it is the prefix of a published version
+`v`, by `accepted_version_published`), every share the Retrieve validates -- after any number of
+rejected shares -- holds exactly the blocks `v` wrote for that share number.  `hT` says `chainOk` is
+"the computed root equals the known root". -/
+theorem retrieve_validates_only_published_blocks [DecidableEq H] (P : Prims PK Sig H FP Chain Blocks)
+    (capFp : FP) (W : World P capFp) (T : TreeOps H Chain)
+    (hT : ∀ c i leaf root, T.chainRoot c i leaf = root → P.chainOk c i leaf root = true)
+    (v : Version H Blocks) (hv : W.published v) (evs : List (REv Chain Blocks)) (i : Nat) (b : Blocks)
+    (h : (i, b) ∈ (rrun T P.bhtRoot (Retr.setup v.pre.root) evs).shares) :
+    b = v.blocksOf i := by
+  obtain ⟨c, hc⟩ := accepted_blocks_hash_to_signed_root T P.bhtRoot v.pre.root evs i b h
+  have hleaf := W.chain_sound _ _ _ _ (hT _ _ _ _ hc)
+  rw [W.honest v hv i] at hleaf
+  exact W.bht_inj _ _ hleaf
+
+/-- the invariant is load-bearing: in the variant where bad-share handling starts over with a clean
+share hash tree (`rstepReset`, not the code), one rejected share followed by shares of another,
+mutually consistent, family makes the reader validate blocks that do not hash to the signed root. -/
+theorem reset_variant_counterexample :
+    let evs : List (REv Nat Toy.TH) := [.offer 0 1 (.leafOf 1 0), .offer 1 1 (.leafOf 1 1), .offer 2 1 (.leafOf 1 2)]
+    let r := evs.foldl (rstepReset Toy.ops id) (Retr.setup (Toy.TH.fam 0))
+    r.shares = [(1, .leafOf 1 1), (2, .leafOf 1 2)] ∧ r.tree = some (.fam 1) ∧
+    (rrun Toy.ops id (Retr.setup (Toy.TH.fam 0)) evs).shares = [] := by decide
+
+/-- non-vacuity: a genuine share is validated after a forged and a damaged one were rejected, and
+forged ones keep being rejected afterwards -/
+example : (Toy.run (some 0) [.offer 0 1, .damaged 1 0 7, .offer 2 0, .offer 3 1, .fail 4, .offer 5 0]).1
+    = [false, false, true, false, false, true] := by decide
+example : (Toy.run (some 0) [.offer 0 1, .damaged 1 0 7, .offer 2 0, .offer 3 1]).2.tree = some (.fam 0) := by decide
 
 /-! ### read-cap / verify-cap holders and servers cannot make a version -/
 
